@@ -168,6 +168,8 @@ def read_pil_line(raw):
  
     elif line[0] == 'strand-complex' and Complex is not None:
         st = [list(Strand(None, name = s).sequence) for s in line[2]]
+        if not st:
+            raise PilFormatError(f"Complex without strands: {name}.")
         sequence = strand_table_to_sequence(st)
         structure = line[3].replace(' ','')
         anon = Complex(sequence, list(structure), name = name)
